@@ -32,10 +32,10 @@ NLANES = 16
 
 from sim.gen import derive  # noqa: E402
 
-QUICK = {"C01": 9000, "C02": 8000, "C03": 8000, "C04": 8000, "C05": 8000, "C06": 5000, "C07": 7000,
-         "C08": 6000, "C09": 8000, "C10": 9000, "C10H": 2500, "C11": 6000, "C12": 2500, "C15": 3000,
-         "C16": 5000, "C17": 6000, "C18": 2500, "C19": 4000}
-THOROUGH_FACTOR = 25
+QUICK = {"C01": 10000, "C02": 12000, "C03": 10000, "C04": 12000, "C05": 10000, "C06": 10000, "C07": 9000,
+         "C08": 8000, "C09": 10000, "C10": 9000, "C10H": 3000, "C11": 8000, "C12": 3000, "C15": 6000,
+         "C16": 8000, "C17": 8000, "C18": 4000, "C19": 6000}
+THOROUGH_FACTOR = 20
 PROPS = ["C01", "C02", "C03", "C04", "C05", "C06", "C07", "C08", "C09", "C10", "C11", "C12", "C15", "C16",
          "C17", "C18", "C19"]
 
